@@ -41,6 +41,6 @@ theorem put_insert_reports (t : Tree) (k : Key) (v : Val) (uniq : Bool) (h : Inv
 
 -- non-vacuity: a full leaf that splits
 example : ((List.range 16).foldl (fun t i => (put t [UInt8.ofNat i] ⟨[], 8⟩ false).tree) Tree.empty).head!.leaves.length = 2 := by
-  decide
+  decide +kernel
 
 end Yak.Props.C12
